@@ -3,3 +3,5 @@ import YawVerif.Model.Proto
 import YawVerif.Drv.Common
 import YawVerif.Props.C03
 import YawVerif.Props.C04
+import YawVerif.Props.C17
+import YawVerif.Drv.Cont
